@@ -442,7 +442,7 @@ def run(ctx):
 
     jobs = [base("S", rng.choice(["float", "int"])) for _ in range(ctx.pick(60, 500))]
     groups.append(("summarize_terrain", jobs, 1))
-    observe(ctx, groups, nproc=ctx.pick(6, 10))
+    observe(ctx, groups, nproc=ctx.pick(4, 10))
 
 META = {
     "technique": "TLA+ transcription of the four 3x3 kernels with exact integer/rational arithmetic; TLC visits every "
